@@ -136,7 +136,12 @@ def census(repo: Repo) -> Dict[str, List[Mut]]:
                 if isinstance(ch, (ast.FunctionDef, ast.AsyncFunctionDef)):
                     il = inline.Inliner(repo, owners.get(id(ch)), sf)
                     try:
-                        flat = inline.unroll(il.flatten(ch), repo, owners.get(id(ch)), sf)     # getattr(x, "in_links") reads as x.in_links
+                        il.flatten(ch)
+                        flat = inline.normalize(repo, owners.get(id(ch)), ch, sf)      # the normal form: helpers read through, tables unrolled
+                        # helpers reached only in the normal form (conditional callee, closures) count as read through as well
+                        il2 = inline.Inliner(repo, owners.get(id(ch)), sf)
+                        il2.flatten(inline.split_conditional_callee(inline.unroll(il.flatten(ch), repo, owners.get(id(ch)), sf)))
+                        il.inlined.extend(il2.inlined)
                     except Exception:
                         flat = ch
                     inlined_names.update(il.inlined)
